@@ -3,7 +3,7 @@ from .. import common, gen, mergecorr, oracles, t2
 from . import base
 
 THEOREMS = ['C03_constants', 'C03_binary', 'C03_winner', 'C03_metadata', 'C03_container_priority_applies_below', 'C03_priorities_refine',
-            'C03_every_leaf_path_latest_of_highest', 'C03_merge_is_prioritised_update', 'C03_prediction_sound', 'C03_document_prediction_sound', 'C03_update_is_pointwise', 'C03_evaluated_config']
+            'C03_every_leaf_path_latest_of_highest', 'C03_merge_is_prioritised_update', 'C03_prediction_sound', 'C03_document_prediction_sound', 'C03_update_is_pointwise', 'C03_evaluated_config', 'C03_no_lists_no_side_condition']
 
 
 def in_domain(docs):
@@ -124,6 +124,17 @@ DOC_FULL = 'fun c : list ynode * option node => match predict_docs (fst c), snd 
 DOC_VALS = 'fun c : list ynode * option node => match predict_docs (fst c), snd c with Some d, Some r => plain_eqb (pvals d) (erase r) | Some _, None => false | None, _ => true end'
 
 
+def add_lists(n, rng, p=0.3, top=True):
+    """turn some scalar leaves into WHOLE-LIST values: the list keeps the leaf's tag, nothing inside it is tagged"""
+    if n[0] == 'map':
+        return ('map', n[1], [(k, add_lists(c, rng, p, False)) for k, c in n[2]])
+    if n[0] == 'sc' and not top and rng.random() < p:
+        els = [rng.choice([('sc', None, str(rng.randint(0, 9))), ('sc', None, 'x'), ('map', None, [('u', ('sc', None, '1'))]), ('seq', None, [('sc', None, '2')])]) for _ in range(rng.randint(0, 3))]
+        tag = n[1] if n[1] in (None, '!force', '!weak') else None
+        return ('seq', tag, els)
+    return n
+
+
 def spec_items(docs):
     """(stage-tree item, document item, texts, outcome) for one history, or None if it cannot be parsed / serialised"""
     from .. import ser, loadcorr
@@ -158,6 +169,8 @@ def spec_p_corr(rep, rng, n):
     items, shown, ditems = [], [], []
     for i in range(n):
         docs = gen_three_stage(rng) if i % 4 == 0 else gen.gen_history(rng, prof_new if i % 4 == 1 else prof, 2, 5)
+        if i % 2 == 1:
+            docs = [add_lists(d, rng) for d in docs]        # lists as values (whole lists with one priority)
         it = spec_items(docs)
         if it is None:
             continue
